@@ -1,2 +1,3 @@
 import ZeepProofs.C13
+import ZeepProofs.C14
 import ZeepProofs.C15
